@@ -21,13 +21,17 @@ operations (queries, flushes, live changes of both ignore lists, of the
 anonymisation switch and of the clients' flags, removals, log searches,
 statistics reads), every observable result passes the spec monitor. -/
 theorem C08_model_meets_spec (a : ResetArgs) (s0 : State) (h0 : reset a = some s0)
-    (hz0 : ZoneOK s0.conf)
+    (hfix : a.fixZone = true)
     (ops : List Op) (hv : ∀ op ∈ ops, op.valid = true) : monitoredRun s0 ops = true := by
   have hi0 : Inv s0 := by
     simp only [reset, Option.map_eq_some_iff] at h0
     obtain ⟨cs, _, rfl⟩ := h0
     intro e he
     simp at he
+  have hz0 : ZoneOK s0.conf := by
+    simp only [reset, Option.map_eq_some_iff] at h0
+    obtain ⟨cs, _, rfl⟩ := h0
+    exact Or.inl hfix
   suffices h : ∀ (ops : List Op) (s : State), Inv s → ZoneOK s.conf → (∀ op ∈ ops, op.valid = true) →
       monitoredRun s ops = true from h ops s0 hi0 hz0 hv
   intro ops
@@ -37,7 +41,7 @@ theorem C08_model_meets_spec (a : ResetArgs) (s0 : State) (h0 : reset a = some s
     intro s hi hz hv
     have hop := hv op (List.mem_cons_self ..)
     simp only [monitoredRun, specOK, Bool.and_eq_true]
-    refine ⟨?_, ih _ (Inv_step hi op hop) (ZoneOK_step hz op) (fun o ho => hv o (List.mem_cons_of_mem _ ho))⟩
+    refine ⟨?_, ih _ (Inv_step hi op hop) (ZoneOK_step hz op hop) (fun o ho => hv o (List.mem_cons_of_mem _ ho))⟩
     rw [specStep_model hi hz op hop]
     rfl
 
@@ -127,11 +131,50 @@ for records that were stored while it was off. -/
 theorem C08_anon_reported_masked (a : ResetArgs) (s0 : State) (h0 : reset a = some s0)
     (ops : List Op) (hv : ∀ op ∈ ops, op.valid = true)
     (ha : (run s0 ops).conf.anon = true) :
-    ∀ r ∈ search (run s0 ops), masked r.ip = true := by
+    ∀ r ∈ searchFull (run s0 ops),
+      masked r.entry.ip = true ∧ infoUnmasked r.info = false ∧ r.leak = false := by
   intro r hr
-  obtain ⟨e, he, _, rfl⟩ := mem_search hr
-  simp only [report, ha]
-  exact masked_ipMut_true (C08_reachable_inv a s0 h0 ops hv e he)
+  have hi := C08_reachable_inv a s0 h0 ops hv
+  obtain ⟨e, he, _, rfl⟩ := mem_searchFull hr
+  refine ⟨?_, reportFull_info_masked hi he ha, rfl⟩
+  simp only [reportFull, report, ha]
+  exact masked_ipMut_true (hi e he)
+
+/-- `client_info` is part of a reported record only when anonymising changes
+nothing about the stored address (`entIP.Equal(entry.IP)`), and an
+address-valued field in it is the text of the stored address itself. -/
+theorem C08_client_info_only_for_unchanged_address (s : State) (e : Entry) :
+    ((reportFull s e).info.isSome = true → canon (ipMut s.conf.anon e.ip) = e.ip) ∧
+    (∀ i a, (reportFull s e).info = some i → i.rule = .ip a → a = e.ip) := by
+  unfold reportFull
+  simp only
+  by_cases hinc : (canon (ipMut s.conf.anon e.ip) == e.ip) = true
+  · simp only [hinc, if_true]
+    refine ⟨fun _ => by simpa using hinc, ?_⟩
+    intro i a hi hr
+    cases hf : findFull s.conf s.runtime (entryIDs e) with
+    | none => rw [hf] at hi; simp at hi
+    | some x =>
+      rw [hf] at hi
+      simp only [Option.map, Option.some.injEq] at hi
+      subst hi
+      exact mem_entryIDs_ip (findFull_rule_ip (i := x.1) (g := x.2) hf hr)
+  · simp only [hinc]
+    exact ⟨fun h => by simp at h, fun _ _ h => by simp at h⟩
+
+/-- Runtime client records (rDNS, WHOIS, …) and the access settings never change
+an ignore decision: the flag the full client finder — `clientOrArtificial` with
+its runtime and artificial branches — hands to `ShouldLog` and to the search is
+the one of the persistent-client search alone, for every runtime index and every
+access list; and no query or stored record depends on the runtime index. -/
+theorem C08_runtime_records_irrelevant (c : Conf) (rt : List RT) (cid a : Bytes) (s : State) (q : Query) :
+    ((findFull c rt (idsOf cid a)).map (·.2) == some true) =
+      (findMultiple c.clients c.leases (idsOf cid a) == some true) ∧
+    (processQuery { s with runtime := rt } q).mem = (processQuery s q).mem ∧
+    (processQuery { s with runtime := rt } q).sClients = (processQuery s q).sClients ∧
+    (processQuery { s with runtime := rt } q).sDomains = (processQuery s q).sDomains ∧
+    search { s with runtime := rt } = search s := by
+  refine ⟨findFull_flag c rt cid a, ?_, ?_, ?_, rfl⟩ <;> (rw [processQuery_eq, processQuery_eq]; rfl)
 
 /-! ## Ignored names -/
 
@@ -183,19 +226,19 @@ theorem C08_domain_rule_ignores_subdomains (d host : Bytes) (hne : d ≠ [])
 identified, for the REAL peer address of the query (zone included), by
 ClientID, exact address, narrowest subnet, DHCP MAC, or as the only holder of
 that zoned address — is not recorded in the query log, whether anonymisation is
-on or off; likewise `ignore_statistics`, on a tree that carries the zoned-client
-repair or in a table without zoned addresses (`ZoneOK`). -/
+on or off; likewise `ignore_statistics` (the tree as it is: `shouldCountClient`
+searches like the query log's finder, `fixZone`). -/
 theorem C08_ignored_client_never_recorded (s : State) (q : Query) :
     (fromIgnoredLog s.conf q.cid (canon q.addr) q.zone = true →
       (processQuery s q).mem = s.mem ∧ (processQuery s q).file = s.file) ∧
-    (ZoneOK s.conf → fromIgnoredStat s.conf q.cid (canon q.addr) q.zone = true →
+    (s.conf.fixZone = true → fromIgnoredStat s.conf q.cid (canon q.addr) q.zone = true →
       (processQuery s q).sClients = s.sClients ∧ (processQuery s q).sDomains = s.sDomains) := by
   rw [processQuery_eq]
   constructor
   · intro h
     simp [logCond_false_of_client h]
   · intro hz h
-    simp [countCond_false_of_client hz h]
+    simp [countCond_false_of_client (Or.inl hz) h]
 
 /-- fe80::1 -/
 def exLinkLocal : Bytes := [254, 128, 0, 0, 0, 0, 0, 0, 0, 0, 0, 0, 0, 0, 0, 1]
@@ -213,11 +256,11 @@ theorem C08_log_and_stats_same_owner (cs : List PClient) (ls : Leases) (cid a : 
       (match modelOwnerL cs ls cid a with | some c => !c.ignStat | none => true) :=
   ⟨findMultiple_eq cs ls cid a, shouldCountClient_eq true cs ls cid a⟩
 
-/-- Without it they do not: the code as it is counts the requests of a client
+/-- Before the repair (c47dc1e) they did not: that code counted the requests of a client
 configured as fe80::1%eth0 with both flags set, while the query log ignores
 them (witness on the model, reproduced on the real code by
 fixes/c08/zoned_client_stats_test.go). -/
-theorem C08_counterexample_zoned_client_counted :
+theorem C08_counterexample_zoned_client_counted_before_fix :
     findMultiple [exZoned] [] (idsOf [] exLinkLocal) = some true ∧
     shouldCountClient false [exZoned] [] (idsOf [] exLinkLocal) = true ∧
     shouldCountClient true [exZoned] [] (idsOf [] exLinkLocal) = false := by
@@ -274,7 +317,7 @@ theorem C08_finder_agrees_with_precedence (cs : List PClient) (ls : Leases) (cid
       intro p hp
       simp [hz p hp]
     simp only [statOwner, if_true, modelOwnerL, this]
-    cases modelOwner cs ls cid a <;> rfl
+    cases modelOwner cs ls cid a <;> simp
 
 /-! ## Disk, and what other operations can do -/
 
@@ -300,6 +343,12 @@ theorem C08_only_queries_record (s : State) (op : Op) (h : ∀ q, op ≠ .query 
     cases rmClient s.conf.clients n <;> simp
   | search => simp [step]
   | stats => simp [step]
+  | edit n id =>
+    simp only [step]
+    cases h1 : editClient s.conf.clients n id with
+    | none => simp
+    | some r => cases r <;> simp
+  | runtime a h o => simp [step]
   | tick => simp [step, tick]
   | restart => simp [step, flush]
   | rotate =>
